@@ -2,7 +2,7 @@
    check_corr compares them with the model, check_spec evaluates the property itself on the observations only
    (it never looks at the model's compile): the run with options must equal T applied pointwise to the plain run. *)
 From Coq Require Import List ZArith QArith Bool.
-Require Import QV.common.Util QV.C05.Model QV.C05.Spec QV.C05.Param.
+Require Import QV.common.Util QV.C05.Model QV.C05.Spec QV.C05.Param QV.C05.Ctors.
 Import ListNotations.
 Open Scope Z_scope.
 
@@ -13,12 +13,27 @@ Inductive obs :=
 | OProg (dur : Z) (chans : list chan) (samples : list (chan * list oq)) (wins : list win)
 | ORaise.      (* create_program or sampling a leaf raised KeyError('Invalid input channels') *)
 
+(* which convenience constructor a case called (operands as described templates) *)
+Inductive cop :=
+| KConcat (args : list ppt)                         (* @, concatenate, with_appended, tuple @ template *)
+| KPad (kwargs : bool) (arg : ppt) (d : Z)          (* pad_to by d ticks; kwargs: pt_kwargs given *)
+| KRep (n : nat) (arg : ppt)                        (* with_repetition, ** *)
+| KRev2 (named_first : bool) (arg : ppt)            (* two reversals; the first one through the class with a name, or through with_time_reversal *)
+| KMap (ren mren : list (N * N)) (pm : list (pname * expr)) (arg : ppt)
+| KPar (values : list (chan * expr)) (arg : ppt)    (* with_parallel_channels *)
+| KParAtomic (args : list ppt)                      (* with_parallel_atomic *)
+| KIs (q : ppt).                                    (* constructors that ARE the class call: with_iteration, + - * /, calls without arguments *)
+
 Inductive case :=
 | COpt (q : ppt) (ps : list (pname * Q)) (S : list N) (G : list trafo) (plain opt : obs)
     (* plain = create_program(parameters=ps), opt = create_program(parameters=ps, to_single_waveform=S,
        global_transformation=G) *)
 | CSame (q1 q2 : ppt) (ps : list (pname * Q)) (o1 o2 : obs)
     (* q1 = what a convenience constructor returned, q2 = the explicit nesting it replaces; both compiled plainly *)
+| CCtor (k : cop) (un : list N) (q1 q2 : ppt) (ps : list (pname * Q)) (o1 o2 : obs)
+    (* like CSame, and: k = WHICH constructor was called on which described operands; un = the node classes that carry
+       no identifier (and are not ForLoopPTs).  The template the real constructor returned (q1, read back from the
+       object) must have the shape the functions of Ctors.v give for the operands: ctor_tie *)
 | CCrash.
 
 Fixpoint insert {A} (leb : A -> A -> bool) (x : A) (l : list A) : list A :=
@@ -78,14 +93,152 @@ Definition in_guards (q : ppt) (ps : list (pname * Q)) (cs : list N) (G : list t
 Definition check_corr_strict (c : case) : bool :=
   match c with
   | COpt q ps cs G plain opt => obs_eqb (model_obs q ps [] []) plain && obs_eqb (model_obs q ps cs G) opt
-  | CSame q1 q2 ps o1 o2 => obs_eqb (model_obs q1 ps [] []) o1 && obs_eqb (model_obs q2 ps [] []) o2
+  | CSame q1 q2 ps o1 o2 | CCtor _ _ q1 q2 ps o1 o2 =>
+      obs_eqb (model_obs q1 ps [] []) o1 && obs_eqb (model_obs q2 ps [] []) o2
   | CCrash => false
   end.
+
+(* ---- tie between Ctors.v and the real constructors: shape of the returned template ---- *)
+(* equality of closed templates up to node classes, order of declared windows, and the representation of dicts
+   (renamings, value dicts and channel lists are compared as functions on the channel / name universe of the cases) *)
+Definition universe : list N := [1; 2; 3; 4; 5; 6; 7; 8]%N.
+Definition oq_eq (a b : oq) : bool := ov_eqb a b.
+Definition interp_eqb (a b : interp) : bool :=
+  match a, b with IHold, IHold | ILinear, ILinear | IJump, IJump => true | _, _ => false end.
+Definition entry_eqb (e1 e2 : entry) : bool :=
+  let '(t1, v1, i1) := e1 in let '(t2, v2, i2) := e2 in (t1 =? t2) && Qeq_bool v1 v2 && interp_eqb i1 i2.
+Definition chdef_eqb (a b : chdef) : bool :=
+  match a, b with
+  | CConst x, CConst y => oq_eq x y
+  | CTable x, CTable y => list_eqb entry_eqb x y
+  | CFun a1 b1, CFun a2 b2 => Qeq_bool a1 a2 && Qeq_bool b1 b2
+  | _, _ => false
+  end.
+Definition dict_ext {A} (e : A -> A -> bool) (l l' : list (N * A)) : bool :=
+  forallb (fun c => match alookup c l, alookup c l' with
+                    | Some x, Some y => e x y | None, None => true | _, _ => false end) universe.
+Definition ren_ext (r r' : list (N * N)) : bool := forallb (fun c => N.eqb (ren_get r c) (ren_get r' c)) universe.
+Definition wins_eqb (a b : list win) : bool := list_eqb win_eqb (isort win_leb a) (isort win_leb b).
+Definition aop_eqb (a b : aop) : bool :=
+  match a, b with AAdd, AAdd | ASub, ASub | AMul, AMul | ADiv, ADiv => true | _, _ => false end.
+Definition scalar_eqb (a b : scalar) : bool :=
+  match a, b with
+  | SAll x, SAll y => Qeq_bool x y
+  | SMap x, SMap y => dict_ext Qeq_bool x y
+  | _, _ => false
+  end.
+(* measurement names a closed template declares, as seen from outside *)
+Fixpoint pt_mnames (p : pt) : list N :=
+  let names := map (fun w : win => fst (fst w)) in
+  match p with
+  | PAtom _ m _ _ => names m
+  | PSeq _ m subs => names m ++ flat_map pt_mnames subs
+  | PRep _ m _ b => names m ++ pt_mnames b
+  | PMap _ _ mr s => map (ren_get mr) (pt_mnames s)
+  | PPar _ _ s | PArith _ _ _ _ s | PRev _ s => pt_mnames s
+  end.
+Definition ren_on (dom : list N) (r r' : list (N * N)) : bool := forallb (fun c => N.eqb (ren_get r c) (ren_get r' c)) dom.
+(* renamings are compared on the channels / measurement names the inner template has (a merged mapping may carry
+   entries for names that do not occur inside) *)
+Fixpoint pt_shape_eqb (p p' : pt) : bool :=
+  match p, p' with
+  | PAtom _ m d chs, PAtom _ m' d' chs' => wins_eqb m m' && (d =? d') && dict_ext chdef_eqb chs chs'
+  | PSeq _ m subs, PSeq _ m' subs' =>
+      wins_eqb m m' &&
+      (fix go (l l' : list pt) : bool :=
+         match l, l' with
+         | [], [] => true
+         | x :: r, y :: r' => pt_shape_eqb x y && go r r'
+         | _, _ => false
+         end) subs subs'
+  | PRep _ m n b, PRep _ m' n' b' => wins_eqb m m' && Nat.eqb n n' && pt_shape_eqb b b'
+  | PMap _ r mr s, PMap _ r' mr' s' => ren_on (pt_chans s) r r' && ren_on (pt_mnames s) mr mr' && pt_shape_eqb s s'
+  | PPar _ ov s, PPar _ ov' s' => dict_ext Qeq_bool ov ov' && pt_shape_eqb s s'
+  | PArith _ o l sc s, PArith _ o' l' sc' s' => aop_eqb o o' && Bool.eqb l l' && scalar_eqb sc sc' && pt_shape_eqb s s'
+  | PRev _ s, PRev _ s' => pt_shape_eqb s s'
+  | _, _ => false
+  end.
+
+(* the voltages a closed template ends on (what pad_to has to hold), read off the MEANING of the template: the last
+   value of the last atom, pushed through the channel renamings, overwrites and arithmetic above it.  None: no last
+   atom (empty sequence / empty loop) or a time reversal on the way (the code defines no final values there) *)
+Definition chdef_final (d : Z) (cd : chdef) : oq :=
+  match cd with
+  | CConst v => v
+  | CTable es => match rev es with (_, v, _) :: _ => Some v | [] => None end
+  | CFun a b => Some (Qred (a * inject_Z d + b))
+  end.
+Fixpoint pt_final (p : pt) : option (list (chan * oq)) :=
+  match p with
+  | PAtom _ _ d chs => Some (map (fun cd => (fst cd, chdef_final d (snd cd))) chs)
+  | PSeq _ _ subs =>
+      (fix go (l : list pt) : option (list (chan * oq)) :=
+         match l with
+         | [] => None
+         | x :: r => match r with [] => pt_final x | _ => go r end
+         end) subs
+  | PRep _ _ _ b => pt_final b
+  | PMap _ r _ s => option_map (map (fun cv : chan * oq => (ren_get r (fst cv), snd cv))) (pt_final s)
+  | PPar _ ov s =>
+      option_map (fun l => map (fun cv : chan * Q => (fst cv, Some (snd cv))) ov
+                           ++ filter (fun cv : chan * oq => negb (amem (fst cv) ov)) l) (pt_final s)
+  | PArith _ op l sc s =>
+      option_map (fun f => map (fun c => (c, chain_apply (arith_steps op l sc (pt_chans s) (fun c => c))
+                                               (fun c' => match alookup c' f with Some v => v | None => None end) c))
+                               (map fst f)) (pt_final s)
+  | PRev _ _ => None
+  end.
+
+Definition unnamed (un : list N) (p : pt) : bool := in_S un (pid p).
+Definition pamc_of (q : ppt) : list pamc := match q with QAtom _ a => [a] | _ => [] end.
+
+(* the shape Ctors.v predicts for the returned template; None = nothing predicted *)
+Definition ctor_expected (k : cop) (un : list N) (sc : scope) : option pt :=
+  match k with
+  | KConcat args => Some (ctor_concat 0 (map (fun a => let p := inst sc a in (unnamed un p, p)) args))
+  | KPad kwargs arg d =>
+      let p := inst sc arg in
+      match pt_final p with
+      | Some f =>
+          let final := map (fun cv : chan * oq => (fst cv, CConst (snd cv))) f in
+          Some (if kwargs then explicit_pad 0 0 p d final else ctor_pad 0 0 (unnamed un p) p d final)
+      | None => None
+      end
+  | KRep n arg => let p := inst sc arg in Some (ctor_rep 0 (unnamed un p) n p)
+  | KRev2 named arg =>
+      let p := inst sc arg in
+      let first := if named then PRev 0 p else ctor_rev 0 (unnamed un p) p in
+      (* the first result is named, or fresh and unnamed (class 0 is never in `un`: decided here) *)
+      Some (match first with
+            | PRev i x => if named then PRev 0 first
+                          else if N.eqb i 0 then x else ctor_rev 0 (unnamed un first) first
+            | _ => ctor_rev 0 (unnamed un first) first
+            end)
+  | KMap ren mren pm arg => let p := inst (smap sc pm) arg in Some (ctor_map 0 (unnamed un p) ren mren p)
+  | KPar values arg => let p := inst sc arg in Some (ctor_par 0 (unnamed un p) (inst_ov sc values) p)
+  | KParAtomic args =>
+      match args with
+      | QAtom i (MNode m subs) :: new =>
+          if in_S un i then Some (inst sc (QAtom i (MNode m (subs ++ flat_map pamc_of new))))
+          else Some (inst sc (QAtom 0 (MNode [] (flat_map pamc_of args))))
+      | [one] => Some (inst sc one)
+      | _ => Some (inst sc (QAtom 0 (MNode [] (flat_map pamc_of args))))
+      end
+  | KIs q => Some (inst sc q)
+  end.
+Definition ctor_tie (k : cop) (un : list N) (q1 : ppt) (ps : list (pname * Q)) : bool :=
+  match ctor_expected k un (scope_of ps) with
+  | Some e => pt_shape_eqb (inst (scope_of ps) q1) e
+  | None => true
+  end.
+
 Definition check_corr (c : case) : bool :=
   match c with
   | COpt q ps cs G plain opt =>
       obs_eqb (model_obs q ps [] []) plain && (negb (in_guards q ps cs G) || obs_eqb (model_obs q ps cs G) opt)
   | CSame q1 q2 ps o1 o2 => obs_eqb (model_obs q1 ps [] []) o1 && obs_eqb (model_obs q2 ps [] []) o2
+  | CCtor k un q1 q2 ps o1 o2 =>
+      obs_eqb (model_obs q1 ps [] []) o1 && obs_eqb (model_obs q2 ps [] []) o2 && ctor_tie k un q1 ps
   | CCrash => false
   end.
 
@@ -115,7 +268,12 @@ Definition transformed_obs (G : list trafo) (plain opt : obs) : bool :=
   | ONone, ONone => true
   | OProg d1 c1 s1 w1, OProg d2 c2 s2 w2 =>
       (d1 =? d2) && list_eqb win_eqb w1 w2
-      && list_eqb N.eqb c2 (isort N.leb (chain_out G c1))
+      && match chain_callk G c1 with      (* the channels T(data) has: a LinearTransformation none of whose inputs is
+                                            among the data forwards everything; one that finds only some of them is
+                                            not applicable (T(plain) is undefined) *)
+         | Some ks => list_eqb N.eqb c2 (isort N.leb ks)
+         | None => false
+         end
       && forallb (fun c =>
            forallb (fun k => ov_eqb (sample_at s2 k c) (chain_apply G (sample_at s1 k) c))
                    (seq 0 (Z.to_nat d1))) c2
@@ -126,7 +284,7 @@ Definition check_spec (c : case) : bool :=
   match c with
   | COpt _ _ _ G plain opt =>
       well_shaped plain && well_shaped opt && no_nan opt && transformed_obs G plain opt
-  | CSame _ _ _ o1 o2 =>
+  | CSame _ _ _ o1 o2 | CCtor _ _ _ _ _ o1 o2 =>
       well_shaped o1 && well_shaped o2 && no_nan o1 && transformed_obs [] o2 o1
   | CCrash => false
   end.
